@@ -226,7 +226,7 @@ func c01Judge(r *Run, c *corpus, reportPipeline bool) {
 		r.Eval()
 		r.Count("events.roundtrip", 1)
 		if os.Getenv("VERIF_DEBUG") == m.obj.Name && m.obj.Name != "" {
-			fmt.Printf("DEBUG %s %s doc=%s\n   out=%s strictErr=%q decodeErr=%q\n", m.cs.Format, m.obj.Name, truncate(string(q.Doc), 300), truncate(string(resp.Out), 300), resp.StrictErr, resp.DecodeErr)
+			fmt.Printf("DEBUG %s %s doc=%s\n   out=%s strictErr=%q decodeErr=%q\n", m.cs.Format, m.obj.Name, truncate(string(q.Doc), 300), truncate(string(resp.Out), 300)+"\n   resp="+truncate(string(mustJSONBytes(resp)), 900), resp.StrictErr, resp.DecodeErr)
 		}
 		if string(q.Doc) != "{}" {
 			r.Distinct(m.cs.ID + m.obj.Name + string(q.Doc))
